@@ -244,6 +244,13 @@ def r2_tables(cx, descendants):
             needle = U(g.elt.left)
             table_expr = its.get(needle)
             ok = isinstance(hay, ast.Call) and call_attr(hay) == "lower" and U(its.get(U(hay.func.value))) == p[0] and table_expr is not None and not any(c.ifs for c in g.generators)
+            if not ok and isinstance(hay, ast.Name) and hay.id in its and table_expr is not None and not any(c.ifs for c in g.generators):
+                # every line lower-cased once, up front:  any(bl in rl for rl in (x.lower() for x in results) for bl in bad_lines)
+                src = its[hay.id]
+                src = trace(src, fn) if isinstance(src, ast.Name) else src
+                if isinstance(src, (ast.GeneratorExp, ast.ListComp)) and len(src.generators) == 1 and not src.generators[0].ifs and U(src.generators[0].iter) == p[0] \
+                        and isinstance(src.elt, ast.Call) and call_attr(src.elt) == "lower" and not src.elt.args and U(src.elt.func.value) == U(src.generators[0].target):
+                    ok = True
     cx.require(ok, anys[0] if anys else fn, "a phrase matches when it is contained in the lower-cased line, for any phrase and any line", construct=short(anys[0]) if anys else "(no any(...))")
     want_sel = "%s if len(%s) > 1 else %s" % (p[2], p[0], p[1])
     sel_txt = None
@@ -532,6 +539,23 @@ def r5_line_search(cx):
         if ok:
             gs = set(guard_texts(ap[0], stop=lp))
             ok = ("search_by_expression(%s)" % U(lp.target), True) in gs and len(gs & LIMIT_OPEN) >= 1 and len(gs) == 2
+    if not loops:
+        # lazy form: ret = [self._parse_line(l) for l in islice((l for l in lines if search_by_expression(l)), limit)]
+        for a_ in [x for x in walk_body(g.body) if isinstance(x, ast.Assign) and isinstance(x.value, ast.ListComp) and len(x.value.generators) == 1 and not x.value.generators[0].ifs]:
+            lc = x.value if False else a_.value
+            g0 = lc.generators[0]
+            it = g0.iter
+            if not (isinstance(it, ast.Call) and call_name(it) in ("islice", "itertools.islice") and len(it.args) == 2 and U(lc.elt) == "self._parse_line(%s)" % U(g0.target)):
+                continue
+            mg = trace(it.args[0], g) if isinstance(it.args[0], ast.Name) else it.args[0]
+            lim = trace(it.args[1], g) if isinstance(it.args[1], ast.Name) else it.args[1]
+            okm = isinstance(mg, ast.GeneratorExp) and len(mg.generators) == 1 and U(mg.elt) == U(mg.generators[0].target) \
+                and [U(i) for i in mg.generators[0].ifs] == ["search_by_expression(%s)" % U(mg.generators[0].target)] \
+                and U(trace(mg.generators[0].iter, g)) in ("self.lines[::-1] if reverse else self.lines",)
+            okl = isinstance(lim, ast.IfExp) and U(lim.test) in ("num is None",) and U(lim.body) == "None" and U(lim.orelse) in ("num", "max(num, 0)", "max(0, num)", "min(max(num, 0), len(lines))", "min(max(0, num), len(lines))")
+            if okm and okl:
+                ok = True
+                loops = [a_]
     cx.require(ok, loops[0] if loops else g, "get() walks the lines in order (or reversed), appending iff the predicate holds and the limit is not reached", construct=short(loops[0], 140) if loops else "(none)")
     rets = [r for r in g.body if isinstance(r, ast.Return)]
     cx.require(bool(rets) and U(rets[-1].value) == "ret[::-1] if reverse else ret", rets[-1] if rets else g, "a reversed search is put back into original order", construct=short(rets[-1]) if rets else "(none)")
